@@ -134,6 +134,11 @@ func VerifH_C06_postprocess() {
 		text += "</body></html>"
 	}
 	hdr := http.Header{"Location": []string{"http://site.example/next"}, "Content-Type": []string{ctype}}
+	noLocation := (status == 301 || status == 308) && verifrt.Choice("redirect-without-location", 2) == 1
+	if noLocation {
+		hdr.Del("Location") // a 3xx answer that names no target (300 Multiple Choices, broken servers)
+		verifrt.Cover("redirect-without-location")
+	}
 	verifmodel.HeaderLinks = nil
 	if verifrt.Choice("link-header", 2) == 1 {
 		// a Link response header is one more source of outlinks
@@ -171,8 +176,10 @@ func VerifH_C06_postprocess() {
 			verifrt.Assert(len(kids) == 0, "C06 at most max-redirect redirects are followed in a chain")
 		} else {
 			verifrt.Cover("redirect-followed")
-			verifrt.Assert(len(kids) == 1 && st == models.ItemGotRedirected, "C06 a redirect below the limit is followed")
-			if len(kids) == 1 {
+			if !noLocation { // (without a target the node must simply not stay pending: asserted above)
+				verifrt.Assert(len(kids) == 1 && st == models.ItemGotRedirected, "C06 a redirect below the limit is followed")
+			}
+			if len(kids) == 1 && !noLocation {
 				verifrt.Assert(kids[0].GetURL().Redirects == redirects+1, "C06 the redirect target carries redirects+1")
 				verifrt.Assert(kids[0].GetURL().Hops == hops, "C06 the redirect target inherits the page's hops")
 				verifrt.Assert(kids[0].GetURL().Raw == "http://site.example/next", "C06 the redirect target is the Location")
